@@ -46,8 +46,24 @@ def effect_free(e):
 def dump(n):
     if isinstance(n, list):
         return "[" + ", ".join(dump(x) for x in n) + "]"
-    n = strip_ctx(copy.deepcopy(n))
+    n = _nest_withs(strip_ctx(copy.deepcopy(n)))
     return ast.dump(n, annotate_fields=True, include_attributes=False)
+
+
+def _nest_withs(n):
+    """R15 (canonical form used by every comparison): `with A as a, B as b: BODY` is written `with A as a: with B as b: BODY`
+    (Language Reference 8.5: a with statement with several items is equivalent to nested with statements)."""
+    class T(ast.NodeTransformer):
+        def visit_With(self, node):
+            node = self.generic_visit(node)
+            if isinstance(node, ast.With) and len(node.items) > 1:
+                inner = node.body
+                for item in reversed(node.items[1:]):
+                    inner = [ast.With(items=[item], body=inner)]
+                return ast.With(items=[node.items[0]], body=inner)
+            return node
+
+    return T().visit(n) if isinstance(n, ast.AST) else n
 
 
 def _norm_targets(n):
@@ -177,6 +193,16 @@ class Eraser(ast.NodeTransformer):
         return n
 
     def visit_AnnAssign(self, n):
+        return self.generic_visit(n)
+
+    def visit_Delete(self, n):
+        """R14: `del t1, ..., tn` of ptera's own temporaries (names no source program can contain, never read afterwards) is
+        unobservable -- except for object lifetime, which is why the transformer emits it."""
+        tmps = [t for t in n.targets if isinstance(t, ast.Name) and t.id.startswith("_ptera__")]
+        if tmps and len(tmps) == len(n.targets):
+            return None
+        if tmps:
+            self.problems.append(Problem("R14", "del mixes ptera temporaries with program names"))
         return self.generic_visit(n)
 
     def merge_gensym(self, stmts):
